@@ -617,6 +617,10 @@ def _self_contained(start, prefix, hist):
     def trial(hs):
         return _fails_in_fresh_process(seq(hs))
 
+    import os
+    if os.environ.get("VERIF_DEBUG_NO_SHRINK"):      # self-test of the runner's shard-replay fallback
+        return None
+
     if trial([hist]):
         return seq([hist])
     if not trial(list(prefix) + [hist]):
